@@ -26,6 +26,16 @@ def absBip (G : BipG) : AbsBipGraph where
   edges := G.edges.map (fun e => ((e.1 : Int), (e.2 : Int)))
   is_bipartite := true
 
+/-- a `DirectedGraph` object, as seen by the family generators -/
+def absDi (D : DiG) : AbsDiGraph where
+  is_dag := D.isDag
+  number_of_vertices := D.n
+  vertices := ⟨1, (D.n : Int) + 1⟩
+  predecessors := fun u => (D.predecessors u).map (·.map Int.ofNat)
+  successors := fun u => (D.successors u).map (·.map Int.ofNat)
+  in_degree := fun u => (D.inDegree u).map (fun (n : Nat) => (n : Int))
+  out_degree := fun u => (D.outDegree u).map (fun (n : Nat) => (n : Int))
+
 /-- `CompleteBipartiteGraph(L, R)` (`non_negative_int` on both sides), as seen by the variable groups -/
 def absCompleteBip (l r : Int) : Except Err AbsBipGraph :=
   if l < 0 ∨ r < 0 then .error .valueError else .ok (absBip (BipG.complete l.toNat r.toNat))
